@@ -150,7 +150,7 @@ class LoopVariant(Unit):
         drives the real decoder past the iteration bound (bounded exploration over short buffers)"""
         from pyvc.verify import verify_case
 
-        for n in (12, 20, 28):
+        for n in (12, 20, 28, 36, 44):
             c = {"decoder": case["decoder"], "n": n, "extra": case["extra"]}
             r = verify_case("termination/bounded", c, "C11", tier, {"no_witness": True, "explore_budget_s": 120})
             for v in r["violations"]:
